@@ -10,13 +10,13 @@ class Adapter(EnvAdapter):
 
     def configs(self, tier):
         if tier == "quick":
-            return [dict(id="n4", ctor=dict(board_size=4), episodes=6, max_steps=120),
+            return [dict(id="n4", ctor=dict(board_size=4), episodes=6, max_steps=120, default_ctor=True),
                     dict(id="n2", ctor=dict(board_size=2), episodes=8, max_steps=40),
                     dict(id="n3", ctor=dict(board_size=3), episodes=6, max_steps=80),
                     # INJ: every reachable board of the 2x2 TLC model (exponents <= 6) as a start state, all 4 actions
                     dict(id="inj2", ctor=dict(board_size=2), inject=("MC_Game2048", "MC_Game2048_quick.cfg"), max_steps=1,
                          post_terminal=0, policies=["random"], props=["C03", "C04", "C05", "C07", "C09", "C12"])]
-        return ([dict(id=f"n{n}", ctor=dict(board_size=n), episodes=40, max_steps=400) for n in (2, 3, 4, 5, 6)]
+        return ([dict(id=f"n{n}", ctor=dict(board_size=n), episodes=40, max_steps=400, default_ctor=(n == 4)) for n in (2, 3, 4, 5, 6)]
                 + [dict(id="inj2", ctor=dict(board_size=2), inject=("MC_Game2048", "MC_Game2048_quick.cfg"), max_steps=2,
                         post_terminal=0, policies=["random"], props=["C03", "C04", "C05", "C07", "C09", "C12"]),
                    dict(id="inj3", ctor=dict(board_size=3), inject=("MC_Game2048", "MC_Game2048_thorough.cfg"), limit=20000,
@@ -28,6 +28,8 @@ class Adapter(EnvAdapter):
     def make(self, cfg):
         from jumanji.environments import Game2048
 
+        if cfg.get("default_ctor"):       # the documented default (4 x 4) from the library's own no-argument constructor
+            return Game2048()
         if "inject" not in cfg:
             return Game2048(**cfg["ctor"])
         import jax.numpy as jnp
